@@ -1,28 +1,468 @@
-import Tw.Model.Conn
+import Tw.Model.Conn6
+import Tw.Model.Conn7
 
 /-!
-# Two online endpoints and an adversarial network (C01, online phase)
+# Two endpoints and an adversarial network (the quantifier of C01)
 
-`Sys` is two `Online` states (indexed by `Bool`) plus, per endpoint, the **history** of every chunk
-packet it ever handed to the network (monotone: delivering does not remove, so duplication,
-reordering and delay are "deliver any index at any time", loss is "never deliver").  Ghost fields
-record what the applications submitted and what they were handed.  Every datagram is stamped at
-send time with the submission counters of both sides and the sender's delivered count; the stamps
-are only used to state the delay assumption.
+A `World` is two endpoints `a`, `b` of one protocol variant and a clock.  Each endpoint carries, next
+to its connection object, three monotone logs:
 
-Moves use the real model functions (`Online.send`, `flush`, `resend`, `feedAck`, `receive`), with
-clock 0 and an inactive send timer: timers only decide *when* the connection layer flushes or
-resends, and here those are moves the adversary may make at any time.
+* `out`: every datagram it ever handed to the `send` callback, in order (the *history* of its
+  direction of the network; it never shrinks), each stamped with the endpoint's two absolute
+  counters at the start of the call that emitted it (`nStamp`: vital chunks submitted so far,
+  `dStamp`: vital chunks delivered to its application so far — the ghost, non-wrapping versions of
+  `OnlineState.sequence` and `OnlineState.ack`);
+* `submitted`: the chunks `send` accepted (returned `Ok`), in order;
+* `events`: everything its delivery iterators yielded (the application drains every iterator: the
+  model's `feed` returns the drained list — assumption H3 is built in).
 
-Assumptions of C01 as guards of `step` (an inadmissible move yields `none`):
-* H1 — a vital chunk is submitted only while fewer than 512 are unacknowledged (`resendQueue.length < 512`);
-* H2 — a datagram is delivered only while each side has submitted fewer than 256 vital chunks since
-  it was sent (then no sequence number it mentions is 1024 behind: at most 512 unacknowledged plus
-  at most 255 chunks queued behind it in a packet, plus 255 in flight);
-* H3 (the application drains every iterator) is built in: `deliver` hands over all events.
+Moves: an application call on either side (`connect`, `send`, `send_connless`, `flush`, `tick`,
+`disconnect`), `deliver to i` of datagram `i` of the *peer's* history (any datagram ever sent, any
+number of times, in any order: duplication, reordering, delay; loss = never delivering), clock
+advance.  A call that panics (API misuse, see C04) or a `deliver` of a datagram that does not exist
+ends the run: `step` returns `none`.
+
+The protocol variants plug in through `Proto`: `proto6 false` (0.6 with the DDNet token),
+`proto6 true` (0.6 towards a peer that does not use the token: the wire strips the token of the
+connecting side's handshake datagrams, everything else is token-less by itself), `proto7`.
 -/
 namespace Tw.NetSim
-open Tw.Conn Tw.Time
+open Tw.Conn
+
+inductive Side where
+  | a | b
+deriving Repr, DecidableEq
+
+def Side.other : Side → Side
+  | .a => .b
+  | .b => .a
+
+/-- application calls -/
+inductive Call where
+  | connect
+  | send (data : Bytes) (vital : Bool)
+  | sendConnless (data : Bytes)
+  | flush
+  | tick
+  | disconnect (reason : Bytes)
+deriving Repr, DecidableEq
+
+/-- what a call or a delivery hands back to the simulator -/
+structure Ret (C P : Type) where
+  conn : C
+  sent : List P := []
+  events : List Event := []
+  /-- `send` returned `Ok`: the chunk counts as submitted -/
+  accepted : Bool := false
+
+/-- a protocol variant -/
+structure Proto where
+  Conn : Type
+  Packet : Type
+  /-- the adversary's choice where the byte level is ambiguous (0.6 close messages) -/
+  Alt : Type
+  init : Conn
+  call : (now : Nat) → (draws : List Nat) → Conn → Call → Except Fail (Ret Conn Packet)
+  recv : (now : Nat) → (draws : List Nat) → Conn → Packet → Alt → Except Fail (Ret Conn Packet)
+  /-- the online state, if the connection is online (H1 looks at its resend queue) -/
+  online : Conn → Option Online
+  /-- the sequence counters a datagram mentions: its ack and its chunks (`none`: connless) -/
+  view : Packet → Option (Nat × List Chunk)
+  /-- the accepting side's answer the connecting side waits for (0.6 `ConnectAccept`, 0.7 `Accept`) -/
+  isAccept : Packet → Bool
+
+/-- a datagram of the history with the sender's absolute counters at the start of the emitting call -/
+structure Sent (P : Type) where
+  pkt : P
+  nStamp : Nat
+  dStamp : Nat
+
+structure End (P : Proto) where
+  conn : P.Conn
+  out : List (Sent P.Packet) := []
+  submitted : List (Bytes × Bool) := []
+  events : List Event := []
+
+structure World (P : Proto) where
+  a : End P
+  b : End P
+  now : Nat := 0
+
+def World.init (P : Proto) : World P := { a := { conn := P.init }, b := { conn := P.init } }
+
+def World.get {P : Proto} (w : World P) : Side → End P
+  | .a => w.a
+  | .b => w.b
+
+def World.set {P : Proto} (w : World P) : Side → End P → World P
+  | .a, e => { w with a := e }
+  | .b, e => { w with b := e }
+
+/-! ## Logs -/
+
+def vitalOf : List (Bytes × Bool) → List Bytes
+  | [] => []
+  | (d, true) :: r => d :: vitalOf r
+  | (_, false) :: r => vitalOf r
+
+def nonvitalOf : List (Bytes × Bool) → List Bytes
+  | [] => []
+  | (d, false) :: r => d :: nonvitalOf r
+  | (_, true) :: r => nonvitalOf r
+
+/-- payloads of the vital / non-vital `Chunk` events, in order -/
+def vitalPayloads : List Event → List Bytes
+  | [] => []
+  | .chunk d true :: es => d :: vitalPayloads es
+  | _ :: es => vitalPayloads es
+
+def nonvitalPayloads : List Event → List Bytes
+  | [] => []
+  | .chunk d false :: es => d :: nonvitalPayloads es
+  | _ :: es => nonvitalPayloads es
+
+def readyCount : List Event → Nat
+  | [] => 0
+  | .ready :: r => readyCount r + 1
+  | _ :: r => readyCount r
+
+/-- the vital chunks the application submitted (payload bytes, in order) -/
+def End.submittedVital {P : Proto} (e : End P) : List Bytes := vitalOf e.submitted
+def End.submittedNonvital {P : Proto} (e : End P) : List Bytes := nonvitalOf e.submitted
+/-- the vital chunks handed to the application (payload bytes, in order) -/
+def End.deliveredVital {P : Proto} (e : End P) : List Bytes := vitalPayloads e.events
+def End.deliveredNonvital {P : Proto} (e : End P) : List Bytes := nonvitalPayloads e.events
+/-- ghost absolute `sequence`: number of vital chunks submitted -/
+def End.nAbs {P : Proto} (e : End P) : Nat := e.submittedVital.length
+/-- ghost absolute `ack`: number of vital chunks delivered -/
+def End.dAbs {P : Proto} (e : End P) : Nat := e.deliveredVital.length
+
+/-! ## Moves -/
+
+inductive Move (P : Proto) where
+  | call (s : Side) (draws : List Nat) (c : Call)
+  | deliver (to : Side) (i : Nat) (draws : List Nat) (alt : P.Alt)
+  | advance (dt : Nat)
+
+/-- books a returned call: new connection object, datagrams appended to the history with the
+counters of the start of the call, events appended -/
+def End.book {P : Proto} (e : End P) (r : Ret P.Conn P.Packet) (sub : List (Bytes × Bool)) : End P :=
+  { conn := r.conn
+    out := e.out ++ r.sent.map (fun p => ⟨p, e.nAbs, e.dAbs⟩)
+    submitted := e.submitted ++ sub
+    events := e.events ++ r.events }
+
+def step {P : Proto} (w : World P) : Move P → Option (World P)
+  | .call s draws c =>
+    let e := w.get s
+    match P.call w.now draws e.conn c with
+    | .error _ => none
+    | .ok r =>
+      let sub := match c with
+        | .send d v => if r.accepted then [(d, v)] else []
+        | _ => []
+      some (w.set s (e.book r sub))
+  | .deliver to i draws alt =>
+    let e := w.get to
+    match (w.get to.other).out[i]? with
+    | none => none
+    | some dg =>
+      match P.recv w.now draws e.conn dg.pkt alt with
+      | .error _ => none
+      | .ok r => some (w.set to (e.book r []))
+  | .advance dt => some { w with now := w.now + dt }
+
+def run {P : Proto} : World P → List (Move P) → Option (World P)
+  | w, [] => some w
+  | w, m :: ms =>
+    match step w m with
+    | none => none
+    | some w1 => run w1 ms
+
+/-! ## The assumptions of C01 as predicates on a move in a world -/
+
+/-- the absolute value a 10-bit counter value `s` refers to, seen from the absolute counter `c` of
+its sender at send time: the latest value `≤ c` congruent to `s` -/
+def unwrap (c s : Nat) : Nat := c - (c + seqMod - s % seqMod) % seqMod
+
+/-- H1: fewer than 512 vital chunks are unacknowledged whenever a vital chunk is submitted -/
+def h1 {P : Proto} (w : World P) : Move P → Bool
+  | .call s _ (.send _ true) =>
+    match P.online (w.get s).conn with
+    | some o => decide (o.resendQueue.length < seqMod / 2)
+    | none => true
+  | _ => true
+
+/-- H2: a datagram is delivered only while every sequence counter it mentions is fewer than 1024
+behind the live counter it is compared with: its ack against the receiver's `sequence`, its vital
+chunk sequence numbers against the sequence number the receiver waits for (`ack + 1`) -/
+def h2 {P : Proto} (w : World P) : Move P → Bool
+  | .deliver to i _ _ =>
+    match (w.get to.other).out[i]? with
+    | none => true
+    | some dg =>
+      match P.view dg.pkt with
+      | none => true
+      | some (ack, chunks) =>
+        decide ((w.get to).nAbs < unwrap dg.dStamp ack + seqMod) &&
+          chunks.all fun c => match c.vital with
+            | some (s, _) => decide ((w.get to).dAbs + 1 < unwrap dg.nStamp s + seqMod)
+            | none => true
+  | _ => true
+
+/-- every move of the schedule returns, and is made while H1 and H2 hold -/
+def admissible {P : Proto} : World P → List (Move P) → Bool
+  | _, [] => true
+  | w, m :: ms =>
+    h1 w m && h2 w m &&
+      match step w m with
+      | none => false
+      | some w1 => admissible w1 ms
+
+/-! ## The statement of C01 on a world -/
+
+structure Safe {P : Proto} (w : World P) : Prop where
+  /-- (1) vital chunks: delivered is a prefix of submitted, both directions -/
+  vital_ab : w.b.deliveredVital <+: w.a.submittedVital
+  vital_ba : w.a.deliveredVital <+: w.b.submittedVital
+  /-- (2) non-vital chunks delivered were submitted (non-vital) by the peer -/
+  nonvital_ab : ∀ x ∈ w.b.deliveredNonvital, x ∈ w.a.submittedNonvital
+  nonvital_ba : ∀ x ∈ w.a.deliveredNonvital, x ∈ w.b.submittedNonvital
+  /-- (3) `Ready` at most once, and only after the peer emitted its accept datagram -/
+  ready_once_a : readyCount w.a.events ≤ 1
+  ready_once_b : readyCount w.b.events ≤ 1
+  ready_after_a : Event.ready ∈ w.a.events → ∃ dg ∈ w.b.out, P.isAccept dg.pkt = true
+  ready_after_b : Event.ready ∈ w.b.events → ∃ dg ∈ w.a.out, P.isAccept dg.pkt = true
+
+/-! ## 0.6 -/
+
+namespace P6
+open Tw.Conn6
+
+/-- how the reader may misread a close message when the hint does not pin the token down -/
+inductive Alt where
+  | exact
+  | error
+  | close (token : Option Nat) (reason : Bytes)
+deriving Repr, DecidableEq
+
+def strip : Packet → Packet
+  | .connless d => .connless d
+  | .control ack _ c => .control ack none c
+  | .chunks ack _ rr n cs => .chunks ack none rr n cs
+
+def hasToken : Packet → Bool
+  | .connless _ => false
+  | .control _ t _ => t.isSome
+  | .chunks _ t _ _ _ => t.isSome
+
+/-- `Packet::read` applied to the bytes `Packet::write` produced for `p`, as a function of the token
+hint.  With the matching hint, or without a hint for everything but a close message, the reader
+returns what was written (C05).  A close message read without a hint or against it is ambiguous at
+the byte level (`has_token_heuristic`; the last four bytes of the reason taken for a token): the
+adversary picks the outcome — what was written, a read error, or a close message with any token and
+reason (the header, hence the ack, is not affected).  Any other packet read against the hint is a
+read error here; this case does not occur (`misread`, `Tw.Props.C01.wire_hint_consistent`).  `tokenless`: the
+peer does not use the token (its datagrams are read as written without one). -/
+def wireRead (tokenless : Bool) (p : Packet) (alt : Alt) (h : Option Bool) : Option Packet :=
+  let q := if tokenless then strip p else p
+  match q with
+  | .connless _ => some q
+  | .control ack tok (.close _) =>
+    if h = some tok.isSome then some q
+    else match alt with
+      | .exact => some q
+      | .error => none
+      | .close tok' r' => some (.control ack tok' (.close r'))
+  | _ => if h = none ∨ h = some (hasToken q) then some q else none
+
+/-- the case `wireRead` turns into a read error without the code doing so: a packet other than a
+close message read against the hint (`Tw.Props.C01.wire_hint_consistent`: never happens) -/
+def misread (tokenless : Bool) (p : Packet) (h : Option Bool) : Bool :=
+  let q := if tokenless then strip p else p
+  match q with
+  | .connless _ => false
+  | .control _ _ (.close _) => false
+  | _ => !(h == none || h == some (hasToken q))
+
+def call (now : Nat) (draws : List Nat) (c : Conn) : Call → Except Fail (Ret Conn Packet)
+  | .connect =>
+    match connect ⟨now, draws⟩ c with
+    | .error e => .error e
+    | .ok (c1, out) => .ok { conn := c1, sent := out.sent, events := out.events }
+  | .send d v =>
+    match send ⟨now, draws⟩ c d v with
+    | .error e => .error e
+    | .ok (c1, r, out) => .ok { conn := c1, sent := out.sent, events := out.events, accepted := r == .ok }
+  | .sendConnless d =>
+    match sendConnless ⟨now, draws⟩ c d with
+    | .error e => .error e
+    | .ok (c1, _, out) => .ok { conn := c1, sent := out.sent, events := out.events }
+  | .flush =>
+    match flush ⟨now, draws⟩ c with
+    | .error e => .error e
+    | .ok (c1, out) => .ok { conn := c1, sent := out.sent, events := out.events }
+  | .tick =>
+    match tick ⟨now, draws⟩ c with
+    | .error e => .error e
+    | .ok (c1, out) => .ok { conn := c1, sent := out.sent, events := out.events }
+  | .disconnect r =>
+    match disconnect ⟨now, draws⟩ c r with
+    | .error e => .error e
+    | .ok (c1, out) => .ok { conn := c1, sent := out.sent, events := out.events }
+
+def recv (tokenless : Bool) (now : Nat) (draws : List Nat) (c : Conn) (p : Packet) (alt : Alt) :
+    Except Fail (Ret Conn Packet) :=
+  match feed ⟨now, draws⟩ c (wireRead tokenless p alt) with
+  | .error e => .error e
+  | .ok (c1, out) => .ok { conn := c1, sent := out.sent, events := out.events }
+
+def online (c : Conn) : Option Online :=
+  match c.state with
+  | .online _ o => some o
+  | _ => none
+
+def view : Packet → Option (Nat × List Chunk)
+  | .connless _ => none
+  | .control ack _ _ => some (ack, [])
+  | .chunks ack _ _ _ cs => some (ack, cs)
+
+def isAccept : Packet → Bool
+  | .control _ _ .connectAccept => true
+  | _ => false
+
+end P6
+
+def proto6 (tokenless : Bool) : Proto where
+  Conn := Conn6.Conn
+  Packet := Conn6.Packet
+  Alt := P6.Alt
+  init := Conn6.Conn.new
+  call := P6.call
+  recv := P6.recv tokenless
+  online := P6.online
+  view := P6.view
+  isAccept := P6.isAccept
+
+/-! ## 0.7 -/
+
+namespace P7
+open Tw.Conn7
+
+def call (now : Nat) (draws : List Nat) (c : Conn) : Call → Except Fail (Ret Conn Packet)
+  | .connect =>
+    match connect ⟨now, draws⟩ c with
+    | .error e => .error e
+    | .ok (c1, out) => .ok { conn := c1, sent := out.sent, events := out.events }
+  | .send d v =>
+    match send ⟨now, draws⟩ c d v with
+    | .error e => .error e
+    | .ok (c1, r, out) => .ok { conn := c1, sent := out.sent, events := out.events, accepted := r == .ok }
+  | .sendConnless d =>
+    match sendConnless ⟨now, draws⟩ c d with
+    | .error e => .error e
+    | .ok (c1, _, out) => .ok { conn := c1, sent := out.sent, events := out.events }
+  | .flush =>
+    match flush ⟨now, draws⟩ c with
+    | .error e => .error e
+    | .ok (c1, out) => .ok { conn := c1, sent := out.sent, events := out.events }
+  | .tick =>
+    match tick ⟨now, draws⟩ c with
+    | .error e => .error e
+    | .ok (c1, out) => .ok { conn := c1, sent := out.sent, events := out.events }
+  | .disconnect r =>
+    match disconnect ⟨now, draws⟩ c r with
+    | .error e => .error e
+    | .ok (c1, out) => .ok { conn := c1, sent := out.sent, events := out.events }
+
+/-- the 0.7 reader needs no hint: a written packet reads back as written (C05) -/
+def recv (now : Nat) (draws : List Nat) (c : Conn) (p : Packet) (_alt : Unit) :
+    Except Fail (Ret Conn Packet) :=
+  match feed ⟨now, draws⟩ c (some p) with
+  | .error e => .error e
+  | .ok (c1, out) => .ok { conn := c1, sent := out.sent, events := out.events }
+
+def online (c : Conn) : Option Online :=
+  match c.state with
+  | .online _ _ o => some o
+  | _ => none
+
+def view : Packet → Option (Nat × List Chunk)
+  | .connless _ _ _ => none
+  | .control ack _ _ => some (ack, [])
+  | .chunks ack _ _ _ cs => some (ack, cs)
+
+def isAccept : Packet → Bool
+  | .control _ _ .accept => true
+  | _ => false
+
+end P7
+
+def proto7 : Proto where
+  Conn := Conn7.Conn
+  Packet := Conn7.Packet
+  Alt := Unit
+  init := Conn7.Conn.new
+  call := P7.call
+  recv := P7.recv
+  online := P7.online
+  view := P7.view
+  isAccept := P7.isAccept
+
+
+/-! ## 0.6: an accepting side created by `Connection::new_accept_token`
+
+The handshake was answered by a stateless listener: the accepting connection object `b` starts
+online with the agreed token, and the history of its direction already holds the `ConnectAccept`
+datagram(s) the listener sent (`k` copies, stamped with the counters 0 / 0). -/
+
+def World.initAccept6 (now token k : Nat) : World (proto6 false) :=
+  { a := { conn := Conn6.Conn.new }
+    b := { conn := Conn6.Conn.newAcceptToken ⟨now, []⟩ token
+           out := List.replicate k ⟨.control 0 (some token) .connectAccept, 0, 0⟩ }
+    now := now }
+
+/-! ## Example schedules (non-vacuity of the C01 theorems) -/
+
+/-- after the handshake: three vital chunks and a non-vital one in two datagrams; the second
+datagram arrives first (twice), the receiver asks for a resend, the resent chunks arrive, then the
+delayed first datagram -/
+def traffic (P : Proto) (alt : P.Alt) (first fb : Nat) : List (Move P) :=
+  [.call .a [] (.send [1] true), .call .a [] (.send [2] true), .call .a [] .flush,
+   .call .a [] (.send [3] true), .call .a [] (.send [9] false), .call .a [] .flush,
+   .deliver .b (first + 1) [] alt, .deliver .b (first + 1) [] alt,
+   .call .b [] .flush,
+   .deliver .a fb [] alt,
+   .call .a [] .flush,
+   .deliver .b (first + 2) [] alt,
+   .deliver .b first [] alt,
+   .advance 600000, .call .b [] .tick, .deliver .a (fb + 1) [] alt,
+   .call .b [] (.send [7] true), .call .b [] .flush, .deliver .a (fb + 2) [] alt]
+
+def demo6 (tokenless : Bool) : List (Move (proto6 tokenless)) :=
+  [.call .a [] .connect, .deliver .b 0 [12345] .exact, .deliver .a 0 [] .exact, .deliver .b 0 [] .exact] ++
+  traffic (proto6 tokenless) .exact 2 1
+
+def demo7 : List (Move proto7) :=
+  [.call .a [111] .connect, .deliver .b 0 [222] (), .deliver .a 0 [] (), .deliver .b 1 [] (),
+   .deliver .a 1 [] ()] ++ traffic proto7 () 2 2
+
+/-- submitted by a / handed to b (vital, non-vital) / handed to a; `Ready` events of a -/
+def summary {P : Proto} (w : World P) : List (List Bytes) × Nat :=
+  ([w.a.submittedVital, w.b.deliveredVital, w.b.deliveredNonvital, w.a.deliveredVital], readyCount w.a.events)
+
+/-- `new_accept_token`: the client connects, the listener's `ConnectAccept` reaches it, then traffic -/
+def demoAccept6 : List (Move (proto6 false)) :=
+  [.call .a [] .connect, .deliver .a 0 [] .exact] ++ traffic (proto6 false) .exact 2 1
+
+/-! ## The online cores alone (first stage of the development, kept as a self-contained result)
+
+`Core.Sys` is two `Online` states (indexed by `Bool`) without handshake and tokens; the moves use the
+model functions `Online.send`, `flush`, `resend`, `feedAck`, `receive` directly, with clock 0 and an
+inactive send timer.  H1 is a guard of `step`; H2 here is the cruder stamp-based condition "each side
+has submitted fewer than 256 vital chunks since the datagram was sent". -/
+namespace Core
+open Tw.Time
 
 structure Stamped where
   pkt : Flushed
@@ -62,16 +502,6 @@ def h2Limit : Nat := 256
 /-- stamp the datagrams `x` sends now -/
 def stamp (s : Sys) (x : Bool) (fl : List Flushed) : List Stamped :=
   fl.map fun f => ⟨f, (s.sub x).length, (s.sub (!x)).length, (s.del x).length⟩
-
-def vitalPayloads : List Event → List Bytes
-  | [] => []
-  | .chunk d true :: es => d :: vitalPayloads es
-  | _ :: es => vitalPayloads es
-
-def nonvitalPayloads : List Event → List Bytes
-  | [] => []
-  | .chunk d false :: es => d :: nonvitalPayloads es
-  | _ :: es => nonvitalPayloads es
 
 def step (cfg : Cfg) (s : Sys) : Move → Option Sys
   | .send x data vital =>
@@ -116,5 +546,7 @@ def run (cfg : Cfg) : Sys → List Move → Option Sys
     match step cfg s m with
     | none => none
     | some s1 => run cfg s1 ms
+
+end Core
 
 end Tw.NetSim
